@@ -15,3 +15,195 @@ Theorem C13_prefix : forall (HO : hops), cv_len32 HO ->
   take HO (64 * s) (spec_outboard HO true data bs) = take HO (64 * s) (spec_outboard HO true (data ++ ext) bs).
 Proof. exact outboard_prefix. Qed.
 Print Assumptions C13_prefix.
+
+(* ======== Gap audit (proofs in Proofs/GapStable.v, Proofs/GapStableB.v) ========
+   C13_keeps_pair / C13_prefix above are about the specification functions true_pair / spec_outboard.  The
+   theorems below state the same for the bytes the model's code produces (post-order writers, creation entry
+   points), for the pairs the model's loaders return from created stores, and along chains of appends. *)
+From BaoV Require Import Model.Sync Model.Fsm Spec.NodeSpec Spec.EncSpec Spec.HashAssm
+  Proofs.HistOb Proofs.FinalStore Proofs.GapStable Proofs.GapStableB.
+
+(* the post-order writers (sync and fsm): the output for the blob, cut after its stable pairs (the cut lies inside
+   the output), is a prefix of the output for every extension *)
+Theorem C13_gap_prefix_writers : forall (HO : hops), cv_len32 HO ->
+  forall (data ext : bytes HO) (bs : N), blen HO (data ++ ext) <= 2 ^ 63 -> bs <= 10 ->
+  let s := sp_stable_count (blen HO data) bs in
+  take HO (64 * s) (snd (fst (outboard_post_order HO (mkTree (blen HO data) bs) data)))
+  = take HO (64 * s) (snd (fst (outboard_post_order HO (mkTree (blen HO (data ++ ext)) bs) (data ++ ext)))) /\
+  take HO (64 * s) (snd (fst (outboard_post_order_fsm HO (mkTree (blen HO data) bs) data)))
+  = take HO (64 * s) (snd (fst (outboard_post_order_fsm HO (mkTree (blen HO (data ++ ext)) bs) (data ++ ext)))) /\
+  64 * s <= blen HO (snd (fst (outboard_post_order HO (mkTree (blen HO data) bs) data))) /\
+  64 * s <= blen HO (snd (fst (outboard_post_order_fsm HO (mkTree (blen HO data) bs) data))).
+Proof. exact gap_prefix_writers. Qed.
+Print Assumptions C13_gap_prefix_writers.
+
+(* the three post-order creation entry points: they succeed on the blob and on the extension, all return the same
+   byte vector o1 resp. o2, and o2 is o1 cut after the stable pairs followed by the rest of o2 *)
+Theorem C13_gap_prefix_entry_points : forall (HO : hops), cv_len32 HO ->
+  forall (data ext : bytes HO) (bs : N), blen HO (data ++ ext) <= 2 ^ 63 -> bs <= 10 ->
+  exists (o1 o2 : bytes HO),
+   (create_sized HO PostIO data (blen HO data) bs
+      = Ok (mkOb PostIO (root_hash HO data) (mkTree (blen HO data) bs) o1) /\
+    create_sized_fsm HO PostIO data (blen HO data) bs
+      = Ok (mkOb PostIO (root_hash HO data) (mkTree (blen HO data) bs) o1) /\
+    post_mem_create HO data bs
+      = Ok (mkOb PostMem (root_hash HO data) (mkTree (blen HO data) bs) o1)) /\
+   (create_sized HO PostIO (data ++ ext) (blen HO (data ++ ext)) bs
+      = Ok (mkOb PostIO (root_hash HO (data ++ ext)) (mkTree (blen HO (data ++ ext)) bs) o2) /\
+    create_sized_fsm HO PostIO (data ++ ext) (blen HO (data ++ ext)) bs
+      = Ok (mkOb PostIO (root_hash HO (data ++ ext)) (mkTree (blen HO (data ++ ext)) bs) o2) /\
+    post_mem_create HO (data ++ ext) bs
+      = Ok (mkOb PostMem (root_hash HO (data ++ ext)) (mkTree (blen HO (data ++ ext)) bs) o2)) /\
+   64 * sp_stable_count (blen HO data) bs <= blen HO o1 /\
+   o2 = take HO (64 * sp_stable_count (blen HO data) bs) o1 ++ drop HO (64 * sp_stable_count (blen HO data) bs) o2.
+Proof. exact gap_prefix_entry_points. Qed.
+Print Assumptions C13_gap_prefix_entry_points.
+
+(* any two post-order stores holding the outboards of the blob and of an extension (created_store: C03_created_store_def;
+   every result of a creation entry point or of init_from on a pre-sized store is one) *)
+Theorem C13_gap_prefix_created_store : forall (HO : hops), cv_len32 HO ->
+  forall (data ext : bytes HO) (bs : N) (ob1 ob2 : outboard HO),
+  blen HO (data ++ ext) <= 2 ^ 63 -> bs <= 10 ->
+  created_store HO data bs ob1 -> created_store HO (data ++ ext) bs ob2 ->
+  is_post (ob_k ob1) = true -> is_post (ob_k ob2) = true ->
+  let s := sp_stable_count (blen HO data) bs in
+  take HO (64 * s) (ob_data ob1) = take HO (64 * s) (ob_data ob2) /\
+  64 * s <= blen HO (ob_data ob1) /\
+  ob_data ob2 = take HO (64 * s) (ob_data ob1) ++ drop HO (64 * s) (ob_data ob2).
+Proof. exact gap_prefix_created_store. Qed.
+Print Assumptions C13_gap_prefix_created_store.
+
+(* the results of the creation entry points (created_by: C03_created_by_def; inhabited for both post-order kinds by
+   C13_gap_prefix_entry_points) *)
+Theorem C13_gap_prefix_created_by : forall (HO : hops), cv_len32 HO ->
+  forall (data ext : bytes HO) (bs : N) (ob1 ob2 : outboard HO),
+  blen HO (data ++ ext) <= 2 ^ 63 -> bs <= 10 ->
+  created_by HO data bs ob1 -> created_by HO (data ++ ext) bs ob2 ->
+  is_post (ob_k ob1) = true -> is_post (ob_k ob2) = true ->
+  let s := sp_stable_count (blen HO data) bs in
+  take HO (64 * s) (ob_data ob1) = take HO (64 * s) (ob_data ob2) /\
+  64 * s <= blen HO (ob_data ob1) /\
+  ob_data ob2 = take HO (64 * s) (ob_data ob1) ++ drop HO (64 * s) (ob_data ob2).
+Proof. exact gap_prefix_created_by. Qed.
+Print Assumptions C13_gap_prefix_created_by.
+
+(* "stable nodes keep their stored pair": a listed node of the blob's tree classified Stable loads the same pair -
+   the blob's true pair - from every created store of the blob and from every created store of every extension,
+   each of any of the four kinds (pre- or post-order, io or memory backed), sync and fsm loaders alike *)
+Theorem C13_gap_keeps_stored_pair : forall (HO : hops), cv_len32 HO ->
+  forall (data ext : bytes HO) (bs : N) (ob1 ob2 : outboard HO) (nd v : N),
+  blen HO (data ++ ext) <= 2 ^ 63 -> bs <= 10 ->
+  created_store HO data bs ob1 -> created_store HO (data ++ ext) bs ob2 ->
+  In nd (sp_post_nodes (blen HO data) bs) ->
+  post_order_offset (mkTree (blen HO data) bs) nd = Some (Stable v) ->
+  load_sync HO ob2 nd = load_sync HO ob1 nd /\
+  load_fsm HO ob2 nd = load_fsm HO ob1 nd /\
+  load_sync HO ob1 nd = Ok (Some (true_pair HO data nd)) /\
+  load_fsm HO ob1 nd = Ok (Some (true_pair HO data nd)) /\
+  true_pair HO (data ++ ext) nd = true_pair HO data nd.
+Proof. exact gap_keeps_stored_pair. Qed.
+Print Assumptions C13_gap_keeps_stored_pair.
+
+Theorem C13_gap_keeps_stored_pair_nonvacuous :
+  cv_len32 gap_hops /\
+  exists (data ext : bytes gap_hops) (bs : N) (ob1 ob2 : outboard gap_hops) (nd v : N),
+    blen gap_hops (data ++ ext) <= 2 ^ 63 /\ bs <= 10 /\
+    created_store gap_hops data bs ob1 /\ created_store gap_hops (data ++ ext) bs ob2 /\
+    In nd (sp_post_nodes (blen gap_hops data) bs) /\
+    post_order_offset (mkTree (blen gap_hops data) bs) nd = Some (Stable v).
+Proof. exact gap_keeps_stored_pair_nonvacuous. Qed.
+Print Assumptions C13_gap_keeps_stored_pair_nonvacuous.
+
+(* the same for EVERY node id at or above the block level whose whole subtree lies inside the blob (the node is not
+   assumed to be listed): it is a listed node, classified Stable with the same slot in the tree of the blob and
+   of the extension, and all created stores of both return the blob's true pair for it *)
+Theorem C13_gap_keeps_stored_pair_inside : forall (HO : hops), cv_len32 HO ->
+  forall (data ext : bytes HO) (bs : N) (ob1 ob2 : outboard HO) (nd : N),
+  blen HO (data ++ ext) <= 2 ^ 63 -> bs <= 10 ->
+  created_store HO data bs ob1 -> created_store HO (data ++ ext) bs ob2 ->
+  bs <= level nd -> sp_chunk_end nd * 1024 <= blen HO data ->
+  (exists v, post_order_offset (mkTree (blen HO data) bs) nd = Some (Stable v) /\
+             post_order_offset (mkTree (blen HO (data ++ ext)) bs) nd = Some (Stable v)) /\
+  In nd (sp_post_nodes (blen HO data) bs) /\
+  load_sync HO ob2 nd = load_sync HO ob1 nd /\
+  load_fsm HO ob2 nd = load_fsm HO ob1 nd /\
+  load_sync HO ob1 nd = Ok (Some (true_pair HO data nd)) /\
+  load_fsm HO ob1 nd = Ok (Some (true_pair HO data nd)) /\
+  true_pair HO (data ++ ext) nd = true_pair HO data nd.
+Proof. exact gap_keeps_stored_pair_inside. Qed.
+Print Assumptions C13_gap_keeps_stored_pair_inside.
+
+Theorem C13_gap_keeps_stored_pair_inside_nonvacuous :
+  exists (data ext : bytes gap_hops) (bs : N) (ob1 ob2 : outboard gap_hops) (nd : N),
+    blen gap_hops (data ++ ext) <= 2 ^ 63 /\ bs <= 10 /\
+    created_store gap_hops data bs ob1 /\ created_store gap_hops (data ++ ext) bs ob2 /\
+    bs <= level nd /\ sp_chunk_end nd * 1024 <= blen gap_hops data.
+Proof. exact gap_keeps_stored_pair_inside_nonvacuous. Qed.
+Print Assumptions C13_gap_keeps_stored_pair_inside_nonvacuous.
+
+(* in post-order stores the pair also stays at the same place: same slot v in both stores, below the cut, inside
+   the smaller store, the same 64 bytes, which parse to the blob's true pair *)
+Theorem C13_gap_keeps_stored_slot : forall (HO : hops), cv_len32 HO ->
+  forall (data ext : bytes HO) (bs : N) (ob1 ob2 : outboard HO) (nd v : N),
+  blen HO (data ++ ext) <= 2 ^ 63 -> bs <= 10 ->
+  created_store HO data bs ob1 -> created_store HO (data ++ ext) bs ob2 ->
+  is_post (ob_k ob1) = true -> is_post (ob_k ob2) = true ->
+  In nd (sp_post_nodes (blen HO data) bs) ->
+  post_order_offset (mkTree (blen HO data) bs) nd = Some (Stable v) ->
+  ob_offset HO ob1 nd = Some v /\ ob_offset HO ob2 nd = Some v /\
+  v < sp_stable_count (blen HO data) bs /\
+  v * 64 + 64 <= blen HO (ob_data ob1) /\
+  slice HO (v * 64) 64 (ob_data ob2) = slice HO (v * 64) 64 (ob_data ob1) /\
+  parse_pair HO (slice HO (v * 64) 64 (ob_data ob1)) = true_pair HO data nd.
+Proof. exact gap_keeps_stored_slot. Qed.
+Print Assumptions C13_gap_keeps_stored_slot.
+
+Theorem C13_gap_keeps_stored_slot_nonvacuous :
+  exists (data ext : bytes gap_hops) (bs : N) (ob1 ob2 : outboard gap_hops) (nd v : N),
+    blen gap_hops (data ++ ext) <= 2 ^ 63 /\ bs <= 10 /\
+    created_store gap_hops data bs ob1 /\ created_store gap_hops (data ++ ext) bs ob2 /\
+    is_post (ob_k ob1) = true /\ is_post (ob_k ob2) = true /\
+    In nd (sp_post_nodes (blen gap_hops data) bs) /\
+    post_order_offset (mkTree (blen gap_hops data) bs) nd = Some (Stable v).
+Proof. exact gap_keeps_stored_slot_nonvacuous. Qed.
+Print Assumptions C13_gap_keeps_stored_slot_nonvacuous.
+
+(* two appends: the cuts move forward, both cuts are prefixes of the final outboard, the first cut is a prefix of
+   the second (any block size) *)
+Theorem C13_gap_prefix_chain2 : forall (HO : hops), cv_len32 HO ->
+  forall (data ext1 ext2 : bytes HO) (bs : N), blen HO (data ++ ext1 ++ ext2) <= 2 ^ 63 ->
+  let s1 := sp_stable_count (blen HO data) bs in
+  let s2 := sp_stable_count (blen HO (data ++ ext1)) bs in
+  s1 <= s2 /\
+  take HO (64 * s1) (spec_outboard HO true data bs) = take HO (64 * s1) (spec_outboard HO true (data ++ ext1) bs) /\
+  take HO (64 * s1) (spec_outboard HO true data bs) = take HO (64 * s1) (spec_outboard HO true (data ++ ext1 ++ ext2) bs) /\
+  take HO (64 * s2) (spec_outboard HO true (data ++ ext1) bs)
+    = take HO (64 * s2) (spec_outboard HO true (data ++ ext1 ++ ext2) bs) /\
+  take HO (64 * s1) (spec_outboard HO true data bs)
+    = take HO (64 * s1) (take HO (64 * s2) (spec_outboard HO true (data ++ ext1) bs)).
+Proof. exact gap_prefix_chain2. Qed.
+Print Assumptions C13_gap_prefix_chain2.
+
+(* any chain of appends data, data ++ e1, data ++ e1 ++ e2, ... (stage i = data followed by the first i
+   extensions), any two stages i <= j, for the bytes written by the model's post-order writer: the cut moves
+   forward, and the cut of stage i is a prefix of the output of stage j and of the cut of stage j *)
+Theorem C13_gap_prefix_chain : forall (HO : hops), cv_len32 HO ->
+  forall (data : bytes HO) (exts : list (bytes HO)) (bs : N) (i j : nat),
+  blen HO (data ++ concat exts) <= 2 ^ 63 -> bs <= 10 -> (i <= j)%nat ->
+  let di := data ++ concat (firstn i exts) in
+  let dj := data ++ concat (firstn j exts) in
+  let si := sp_stable_count (blen HO di) bs in
+  let sj := sp_stable_count (blen HO dj) bs in
+  si <= sj /\
+  take HO (64 * si) (snd (fst (outboard_post_order HO (mkTree (blen HO di) bs) di)))
+  = take HO (64 * si) (snd (fst (outboard_post_order HO (mkTree (blen HO dj) bs) dj))) /\
+  take HO (64 * si) (snd (fst (outboard_post_order HO (mkTree (blen HO di) bs) di)))
+  = take HO (64 * si) (take HO (64 * sj) (snd (fst (outboard_post_order HO (mkTree (blen HO dj) bs) dj)))).
+Proof. exact gap_prefix_chain. Qed.
+Print Assumptions C13_gap_prefix_chain.
+
+(* the cut is not empty in general: 3 chunks: 1 of 2 pairs stable; 4 chunks: all 3 pairs stable *)
+Theorem C13_gap_stable_count_nonvacuous :
+  sp_stable_count 3072 0 = 1 /\ sp_stable_count 4096 0 = 3 /\ sp_blocks 3072 0 - 1 = 2 /\ sp_blocks 4096 0 - 1 = 3.
+Proof. exact gap_stable_count_nonvacuous. Qed.
+Print Assumptions C13_gap_stable_count_nonvacuous.
